@@ -48,8 +48,6 @@ func ruleC01(c *Check, p *Prog) {
 	}
 	checkPreconds(c, p, "C01")
 	checkEntryPoints(c, p, "C01")
-	checkEquiv(c, p, "R-MSB", "B2bit", eqSpec{Pkg: pkgRoot, Name: "B2bit", RefName: "B2bit", Dom: map[string]Domain{"param:0": {Lo: 0, Hi: 255}}}, "masks 0x80..0x01 in order")
-	checkEquiv(c, p, "R-MSB", "B2bitArr", eqSpec{Pkg: pkgRoot, Name: "B2bitArr", RefName: "B2bitArr", Inline: map[string]bool{pkgRoot + ".B2bitArr": true}}, "append B2bit(b) for every byte in order")
 }
 
 var c02Specs = []numSpec{
@@ -188,4 +186,6 @@ func checkEntryPoints(c *Check, p *Prog, prop string) {
 			checkRunner(c, p, rs, "R-RUNNER", "")
 		}
 	}
+	// the byte -> bit adapter every byte entry point and runner above forwards through
+	checkBitAdapters(c, p)
 }
